@@ -47,6 +47,8 @@ def build_all(ctx):
 
 
 def check(ctx):
+    ctx.rule("R03.9", "the solver builds the operators it uses with pinning exactly when a terminal value is configured "
+                      "(so that R03.5 speaks about the operators in use)", 1)
     ctx.rule("R03.8", "Mesh/EdgeMesh geometry (sites, edges, lengths, dual lengths, areas) is written by the constructors only", 1)
     ctx.rule("R03.1", "Laplacian (no link variable) == divergence @ gradient, as merged COO blocks", 2)
     ctx.rule("R03.2", "column sums of diag(areas) @ divergence vanish", 1)
@@ -200,6 +202,8 @@ def check(ctx):
            consequence="an identity row or link variable in the mu operators is a hidden current source")
     ctx.decline("positivity of dual edge lengths / connectivity of the mesh (geometric runtime facts); "
                 "negative semi-definiteness and kernel=constants follow from the checked stencil form for W>0 on a connected mesh")
+    from .c06 import wiring
+    wiring(ctx, "R03.9", only_flag=True)
     from ..effects import mesh_immutable
     mesh_immutable(ctx, "R03.8", 'the mesh the operators are built from no longer matches its own edge lengths, dual edge lengths and areas (computed once from the old vertex positions): gradient, divergence and Laplacian built on it are no longer exact/conservative')
     ctx.assume("numpy/scipy primitives behave as tabulated in pvs/interp.py (concatenate, COO duplicate summation, einsum 'ij,ij->i', exp, isin)")
